@@ -269,6 +269,10 @@ class Entity(Block):
 
                 if _entity_instantiation_handler is not None:
                     _entity_instantiation_handler(info)
+            except BaseException:
+                # do not keep a partially elaborated architecture for later compilations
+                info._discard_instantiation()
+                raise
             finally:
                 assert len(_block_stack) == 1
                 _block_stack = prev_block_stack
